@@ -341,10 +341,16 @@ def process(ck, case):
         for (di, p), dep in deps.items():
             if di != i:
                 continue
-            xs = np.asarray(dep.x, dtype=float)
-            ys = np.asarray(dep.y, dtype=float)
-            if not (np.array_equal(xs, np.asarray(dist.conditioning_values, dtype=float)) and
-                    np.array_equal(ys, np.array([pp[p] for pp in dist.parameters_per_interval]))):
+            # the pairs this dependence function has to be fitted to: the distribution's own records of this fit
+            xs = np.asarray(dist.conditioning_values, dtype=float)
+            ys = np.array([pp[p] for pp in dist.parameters_per_interval], dtype=float)
+            # what the dependence function says it was given (semi-private attributes; when a tree does not keep
+            # them the least-squares oracle below still decides)
+            seen_x, seen_y = getattr(dep, "x", None), getattr(dep, "y", None)
+            if seen_x is None or seen_y is None:
+                ck.count("A_dep_xy_not_observable")
+            if seen_x is not None and seen_y is not None and not (
+                    np.array_equal(np.asarray(seen_x, dtype=float), xs) and np.array_equal(np.asarray(seen_y, dtype=float), ys)):
                 bad.append(("dependence_function_fitted_to_reference_estimate_pairs", f"dimension {i} parameter {p}"))
             elif len(xs) >= 3 and np.ptp(xs) > 0:
                 # ... and actually fitted: its parameters are the least-squares solution on those pairs
@@ -422,6 +428,18 @@ def process(ck, case):
                                 f"(references {np.asarray(a.conditioning_values)[:4].tolist()}...), a fresh model fitted to B has "
                                 f"{len(b.data_intervals)} (references {np.asarray(b.conditioning_values)[:4].tolist()}...)"))
                     break
+                # ... and the same dependence functions (both are least-squares fits of the same pairs; the re-fit only
+                # starts from other parameter values)
+                for p, dep_a in a.conditional_parameters.items():
+                    pa = np.array(list(dep_a.parameters.values()), dtype=float)
+                    pb = np.array(list(b.conditional_parameters[p].parameters.values()), dtype=float)
+                    scale = max(1.0, float(np.max(np.abs([pp[p] for pp in b.parameters_per_interval]))))
+                    if len(b.conditioning_values) >= 3 and np.ptp(np.asarray(b.conditioning_values, dtype=float)) > 0 \
+                            and not np.allclose(pa, pb, rtol=1e-4, atol=1e-5 * scale):
+                        bad.append(("refit_equals_fresh_fit",
+                                    f"dimension {i} parameter {p}: dependence function of the model fitted to A and re-fitted "
+                                    f"to B has parameters {pa.tolist()}, of a fresh model fitted to B {pb.tolist()}"))
+                        break
     for pred, detail in bad:
         ck.fail({"entry": "GlobalHierarchicalModel.fit", "predicate": pred}, case, detail)
     if div and not bad:
